@@ -37,7 +37,8 @@ def plain(rng, maxc=7, maxb=14, undeclared=False, withdrawn=True, mults=MULTS):
     if not elig:
         wd = []; elig = list(range(1, n + 1))
     s = rng.randint(1, len(elig))
-    und = [c for c in elig if undeclared and rng.random() < 0.25]
+    # an undeclared write-in may also be withdrawn (both markers on one candidate)
+    und = [c for c in range(1, n + 1) if undeclared and rng.random() < 0.25]
     lines = []
     for _ in range(rng.randint(1, maxb)):
         lines.append((rng.choice(mults), rng.sample(range(1, n + 1), rng.randint(1, n))))
@@ -142,14 +143,20 @@ def write_ins(rng):
     n = rng.randint(3, 7)
     und = rng.sample(range(1, n + 1), rng.randint(1, n - 1))
     decl = [c for c in range(1, n + 1) if c not in und]
-    s = rng.randint(1, n - 1) if rng.random() < 0.3 else rng.randint(1, max(1, len(decl)))
+    # sometimes a withdrawn candidate, declared or not (a write-in can be withdrawn too)
+    wd = [c for c in range(1, n + 1) if rng.random() < 0.15] if rng.random() < 0.4 else []
+    if len(wd) >= n - 1:
+        wd = wd[:1]
+    elig = [c for c in range(1, n + 1) if c not in wd]
+    s = rng.randint(1, len(elig)) if rng.random() < 0.3 else rng.randint(1, max(1, len([c for c in decl if c not in wd])))
+    s = min(s, len(elig))
     lines = []
     for _ in range(rng.randint(2, 10)):
         r = rng.sample(range(1, n + 1), rng.randint(1, n))
         if rng.random() < 0.4:
             r = [rng.choice(und)] + [x for x in r if x not in und]
         lines.append((rng.choice(MULTS + [20]), r))
-    return _finish(rng, n, s, [], und, lines)
+    return _finish(rng, n, s, wd, und, lines)
 
 
 def coalitions(rng):
